@@ -98,6 +98,7 @@ struct Thr {
   int kind = 0;             // 0 yield, 1 spin
   unsigned long parkedAt = 0;
   unsigned long lastStep = 0;
+  unsigned long lastProgress = 0;   // last step of this thread that was not a spin -> spin re-check
   std::thread th;
 };
 inline thread_local Thr* tl_self = nullptr;
@@ -180,7 +181,9 @@ struct Ctl {
     Thr* p = thr[t].get();
     if (p->st.load(std::memory_order_acquire) != 1) return false;
     if (p->kind != 1) return true;
-    for (auto& [id, u] : thr) if (id != t && u->lastStep > p->parkedAt) return true;
+    // a spinner is worth re-running only after some other thread made progress (a step that was not itself a
+    // fruitless spin re-check); otherwise two spinners would wake each other forever
+    for (auto& [id, u] : thr) if (id != t && u->lastProgress > p->parkedAt) return true;
     return false;
   }
   std::vector<int> enabled_set() {
@@ -197,9 +200,12 @@ struct Ctl {
     Thr* p = thr[t].get();
     if (p->st.load(std::memory_order_acquire) != 1) return false;
     ++stepNo; p->lastStep = stepNo;
+    bool wasSpin = p->kind == 1;
     p->st.store(0, std::memory_order_release);
     sem_post(&p->go);
     wait_back();
+    bool nowSpin = p->st.load(std::memory_order_acquire) == 1 && p->kind == 1;
+    if (!(wasSpin && nowSpin)) p->lastProgress = stepNo;
     return true;
   }
   void start_all() { for (auto& [id, u] : thr) step(id); }
